@@ -144,3 +144,363 @@ Proof.
   rewrite !rl_is_clamp by assumption. rewrite !clamp_compl by assumption. reflexivity.
 Qed.
 
+(* ------------------------------------------------------------------ RGB565: packing and bytes (little-endian machine) *)
+From LJT Require Import lib.Sweep.
+
+Lemma lor_mul_pow2 a b n : 0 <= n -> 0 <= b < 2 ^ n -> Z.lor (a * 2 ^ n) b = a * 2 ^ n + b.
+Proof.
+  intros Hn Hb. apply Z.bits_inj'. intros k Hk. rewrite Z.lor_spec.
+  destruct (Z.lt_ge_cases k n) as [Hlt|Hge].
+  - rewrite Z.mul_pow2_bits_low by lia. cbn [orb].
+    rewrite <- (Z.mod_pow2_bits_low (a * 2 ^ n + b) n k) by lia.
+    rewrite Z.add_comm, Z.mod_add by lia. rewrite Z.mod_small by lia. reflexivity.
+  - assert (Hb0 : Z.testbit b k = false).
+    { destruct (Z.eq_dec b 0) as [->|Hnz]; [apply Z.bits_0|].
+      apply Z.bits_above_log2; [lia|]. apply Z.log2_lt_pow2; [lia|].
+      eapply Z.lt_le_trans; [apply Hb|]. apply Z.pow_le_mono_r; lia. }
+    rewrite Hb0, orb_false_r.
+    rewrite Z.mul_pow2_bits by lia.
+    replace k with ((k - n) + n) at 2 by lia.
+    rewrite <- Z.div_pow2_bits by lia.
+    rewrite Z.add_comm, Z.div_add by lia. rewrite Z.div_small by lia. reflexivity.
+Qed.
+
+Lemma pack_r_sweep : sweep (fun r => Z.land (Z.shiftl r (z5 pack565_le 0)) (z5 pack565_le 1) =? (r / 8) * 2048) 0 256 = true.
+Proof. vm_compute. reflexivity. Qed.
+Lemma pack_g_sweep : sweep (fun g => Z.land (Z.shiftl g (z5 pack565_le 2)) (z5 pack565_le 3) =? (g / 4) * 32) 0 256 = true.
+Proof. vm_compute. reflexivity. Qed.
+
+(* the documented RGB565 word: 5 bits of red, 6 of green, 5 of blue *)
+Theorem pack565_fields r g b : 0 <= r <= 255 -> 0 <= g <= 255 -> 0 <= b <= 255 ->
+  pack565 false r g b = (r / 8) * 2048 + (g / 4) * 32 + b / 8 /\ 0 <= pack565 false r g b < 65536.
+Proof.
+  intros Hr Hg Hb.
+  assert (E : pack565 false r g b = (r / 8) * 2048 + (g / 4) * 32 + b / 8).
+  { unfold pack565.
+    pose proof (sweep_sound _ _ _ pack_r_sweep r ltac:(lia)) as Er. apply Z.eqb_eq in Er.
+    pose proof (sweep_sound _ _ _ pack_g_sweep g ltac:(lia)) as Eg. apply Z.eqb_eq in Eg.
+    rewrite Er, Eg. change (z5 pack565_le 4) with 3. rewrite Z.shiftr_div_pow2 by lia. change (2 ^ 3) with 8.
+    change 2048 with (2 ^ 11) at 1. rewrite lor_mul_pow2 by (try lia; change (2 ^ 11) with 2048; Z.div_mod_to_equations; lia).
+    replace (r / 8 * 2 ^ 11 + g / 4 * 32) with ((r / 8 * 64 + g / 4) * 2 ^ 5) by (change (2 ^ 11) with 2048; change (2 ^ 5) with 32; ring).
+    rewrite lor_mul_pow2 by (try lia; change (2 ^ 5) with 32; Z.div_mod_to_equations; lia).
+    change (2 ^ 5) with 32. ring. }
+  split; [exact E|]. rewrite E. Z.div_mod_to_equations. lia.
+Qed.
+
+Lemma length_store16 buf op v : length (store16 false buf op v) = length buf.
+Proof. unfold store16. now rewrite !length_upd. Qed.
+Lemma length_store32 buf op v : length (store32 false buf op v) = length buf.
+Proof. unfold store32. now rewrite !length_upd. Qed.
+
+Lemma store16_frame buf op v j : 0 <= j -> (j < op \/ op + 2 <= j) -> rd (store16 false buf op v) j = rd buf j.
+Proof. intros Hj H. unfold store16. rewrite !rd_upd_other by lia. reflexivity. Qed.
+Lemma store32_frame buf op v j : 0 <= j -> (j < op \/ op + 4 <= j) -> rd (store32 false buf op v) j = rd buf j.
+Proof. intros Hj H. unfold store32. rewrite !rd_upd_other by lia. reflexivity. Qed.
+
+Lemma land255 v : Z.land v 255 = v mod 256.
+Proof. change 255 with (Z.ones 8). now rewrite Z.land_ones by lia. Qed.
+
+Lemma load16_store16 buf op v : 0 <= op -> op + 2 <= Z.of_nat (length buf) -> 0 <= v < 65536 ->
+  load16 false (store16 false buf op v) op = v.
+Proof.
+  intros Hop Hlen Hv. unfold load16, store16.
+  rewrite rd_upd_other by lia. rewrite rd_upd_same by lia.
+  rewrite rd_upd_same by (rewrite length_upd; lia).
+  rewrite !land255, Z.shiftr_div_pow2 by lia. change (2 ^ 8) with 256. Z.div_mod_to_equations. lia.
+Qed.
+
+Lemma load16_store32 buf op v1 v2 : 0 <= op -> op + 4 <= Z.of_nat (length buf) -> 0 <= v1 < 65536 -> 0 <= v2 < 65536 ->
+  load16 false (store32 false buf op (pack_two false v1 v2)) op = v1 /\
+  load16 false (store32 false buf op (pack_two false v1 v2)) (op + 2) = v2.
+Proof.
+  intros Hop Hlen H1 H2. unfold load16, store32, pack_two.
+  rewrite Z.shiftl_mul_pow2 by lia. rewrite lor_mul_pow2 by (try lia; change (2 ^ 16) with 65536; lia).
+  change (2 ^ 16) with 65536.
+  split.
+  - rewrite !rd_upd_other by lia. rewrite rd_upd_same by lia.
+    rewrite (rd_upd_other _ (op + 3)) by lia. rewrite (rd_upd_other _ (op + 2)) by lia.
+    rewrite rd_upd_same by (rewrite !length_upd; lia).
+    rewrite !land255, !Z.shiftr_div_pow2 by lia. change (2 ^ 8) with 256. Z.div_mod_to_equations. lia.
+  - rewrite (rd_upd_other _ (op + 3)) by lia. rewrite rd_upd_same by (rewrite !length_upd; lia).
+    replace (op + 2 + 1) with (op + 3) by lia. rewrite rd_upd_same by (rewrite !length_upd; lia).
+    rewrite !land255, !Z.shiftr_div_pow2 by lia. change (2 ^ 16) with 65536. change (2 ^ 24) with 16777216.
+    Z.div_mod_to_equations. lia.
+Qed.
+
+(* ------------------------------------------------------------------ RGB565: rows (no dithering, little-endian) *)
+Lemma px565_nodither src d t : px565 src false d t = px565 src false 0 t.
+Proof. unfold px565. destruct (src =? 0); [reflexivity|]. destruct (src =? 1); reflexivity. Qed.
+
+Definition val565 (src : Z) (t : px3) : Z := pk false (px565 src false 0 t).
+
+Lemma cols565_ext b1 b2 : forall n op, (forall j, op <= j < op + 2 * Z.of_nat n -> rd b1 j = rd b2 j) ->
+  cols565 false b1 op n = cols565 false b2 op n.
+Proof.
+  induction n; intros op H; [reflexivity|]. cbn [cols565]. f_equal.
+  - unfold load16. rewrite !H by lia. reflexivity.
+  - apply IHn. intros j Hj. apply H. lia.
+Qed.
+
+Lemma cols565_app buf : forall a b op,
+  cols565 false buf op (a + b) = cols565 false buf op a ++ cols565 false buf (op + 2 * Z.of_nat a) b.
+Proof.
+  induction a; intros b op; cbn [cols565 Nat.add app].
+  - f_equal. lia.
+  - f_equal. rewrite IHa. f_equal. f_equal. lia.
+Qed.
+
+Definition ok16 (src : Z) (inp : list px3) : Prop := Forall (fun t => 0 <= val565 src t < 65536) inp.
+
+Lemma pairs565_spec src : forall n inp buf op d,
+  (2 * n <= length inp)%nat -> ok16 src inp -> 0 <= op -> op + 4 * Z.of_nat n <= Z.of_nat (length buf) ->
+  let '(inp', buf', op', d') := pairs565 false src false n inp buf op d in
+  inp' = skipn (2 * n) inp /\ op' = op + 4 * Z.of_nat n /\ d' = d /\ length buf' = length buf /\
+  (forall j, 0 <= j -> (j < op \/ op + 4 * Z.of_nat n <= j) -> rd buf' j = rd buf j) /\
+  cols565 false buf' op (2 * n) = map (val565 src) (firstn (2 * n) inp).
+Proof.
+  induction n; intros inp buf op d Hlen Hok Hop Hb.
+  - cbn. repeat split; auto. lia.
+  - destruct inp as [|t1 [|t2 rest]]; cbn [length] in Hlen; try lia.
+    cbn [pairs565 hd tl]. rewrite (px565_nodither src d t1), (px565_nodither src d t2).
+    fold (val565 src t1). fold (val565 src t2).
+    inversion Hok as [|? ? H1 Hok1]; subst. inversion Hok1 as [|? ? H2 Hok2]; subst.
+    set (buf1 := store32 false buf op (pack_two false (val565 src t1) (val565 src t2))).
+    assert (L1 : length buf1 = length buf) by apply length_store32.
+    specialize (IHn rest buf1 (op + 4) d). 
+    destruct (pairs565 false src false n rest buf1 (op + 4) d) as [[[inp' buf'] op'] d'].
+    destruct IHn as (I1 & I2 & I3 & I4 & I5 & I6); [lia | assumption | lia | rewrite L1; lia |].
+    replace (2 * S n)%nat with (S (S (2 * n))) by lia.
+    cbn [skipn firstn map cols565]. repeat split.
+    + exact I1.
+    + lia.
+    + exact I3.
+    + now rewrite I4.
+    + intros j Hj Ho. rewrite I5 by lia. apply store32_frame; lia.
+    + destruct (load16_store32 buf op (val565 src t1) (val565 src t2)) as [E1 E2]; try assumption; try lia.
+      f_equal; [|f_equal].
+      * unfold load16. rewrite !I5 by lia. exact E1.
+      * unfold load16. rewrite !I5 by lia. exact E2.
+      * replace (op + 2 + 2) with (op + 4) by lia. exact I6.
+Qed.
+
+(* one row: whatever the alignment of the row pointer, exactly the w pixels of the row are written, the
+   num_cols handed to the next row differs (w or w-1) -- which is why it must be reset per row *)
+Lemma row565_spec src base inp buf op d :
+  let w := Z.of_nat (length inp) in
+  (1 <= length inp)%nat -> w < 2 ^ 32 -> ok16 src inp -> 0 <= op -> op + 2 * w <= Z.of_nat (length buf) ->
+  let '(buf', nc', d') := row565 false src false base inp buf op w d in
+  length buf' = length buf /\ d' = d /\
+  nc' = (if negb (Z.land (base + op) pack_align_mask =? 0) then w - 1 else w) /\
+  (forall j, 0 <= j -> (j < op \/ op + 2 * w <= j) -> rd buf' j = rd buf j) /\
+  cols565 false buf' op (length inp) = map (val565 src) inp.
+Proof.
+  cbv zeta. intros Hw1 Hw32 Hok Hop Hb. unfold row565.
+  destruct (negb (Z.land (base + op) pack_align_mask =? 0)) eqn:Ea.
+  - (* unaligned: one pixel first *)
+    destruct inp as [|t0 rest]; [cbn in Hw1; lia|]. cbn [hd tl length] in *.
+    rewrite px565_nodither. fold (val565 src t0). inversion Hok as [|? ? H0 Hok']; subst.
+    rewrite Nat2Z.inj_succ in *.
+    replace ((Z.succ (Z.of_nat (length rest)) - 1) mod 2 ^ 32) with (Z.of_nat (length rest)) by (rewrite Z.mod_small; lia).
+    set (buf1 := store16 false buf op (val565 src t0)).
+    assert (L1 : length buf1 = length buf) by apply length_store16.
+    set (n := Z.to_nat (Z.shiftr (Z.of_nat (length rest)) 1)).
+    assert (Hn : (2 * n <= length rest)%nat /\ Z.of_nat (length rest) = 2 * Z.of_nat n + (if Z.odd (Z.of_nat (length rest)) then 1 else 0)).
+    { unfold n. rewrite Z.shiftr_div_pow2 by lia. change (2 ^ 1) with 2.
+      pose proof (Zdiv2_odd_eqn (Z.of_nat (length rest))) as E. rewrite Z.div2_div in E.
+      rewrite Z2Nat.id by (apply Z.div_pos; lia). split; [|lia].
+      destruct (Z.odd (Z.of_nat (length rest))); lia. }
+    destruct Hn as [Hn1 Hn2].
+    pose proof (pairs565_spec src n rest buf1 (op + 2) d Hn1 Hok' ltac:(lia)) as P.
+    destruct (pairs565 false src false n rest buf1 (op + 2) d) as [[[inp2 buf2] op2] d2].
+    destruct P as (P1 & P2 & P3 & P4 & P5 & P6); [rewrite L1; destruct (Z.odd (Z.of_nat (length rest))); lia|].
+    assert (E0 : load16 false buf1 op = val565 src t0) by (apply load16_store16; lia).
+    destruct (Z.odd (Z.of_nat (length rest))) eqn:Eo.
+    + (* odd tail *)
+      assert (Hr : length rest = (2 * n + 1)%nat) by lia.
+      assert (Hin2 : exists tl0, inp2 = [tl0] /\ rest = firstn (2 * n) rest ++ [tl0]).
+      { subst inp2. pose proof (firstn_skipn (2 * n) rest) as FS.
+        destruct (skipn (2 * n) rest) as [|x [|y r]] eqn:Es.
+        - rewrite <- FS, app_nil_r, firstn_length in Hr. lia.
+        - exists x. split; [reflexivity | now rewrite FS].
+        - assert (length rest = length (firstn (2 * n) rest) + S (S (length r)))%nat by (rewrite <- FS at 1; rewrite app_length; reflexivity).
+          rewrite firstn_length in H. lia. }
+      destruct Hin2 as (tl0 & -> & Hrest). cbn [hd].
+      rewrite px565_nodither. fold (val565 src tl0).
+      assert (Htl : 0 <= val565 src tl0 < 65536).
+      { rewrite Hrest in Hok'. apply Forall_app in Hok'. destruct Hok' as [_ Hk]. now inversion Hk. }
+      repeat split.
+      * rewrite length_store16. lia.
+      * exact P3.
+      * lia.
+      * intros j Hj Ho. rewrite store16_frame by lia. rewrite P5 by lia. apply store16_frame; lia.
+      * cbn [cols565 map]. f_equal.
+        -- unfold load16. rewrite !store16_frame by lia. rewrite !P5 by lia. exact E0.
+        -- rewrite Hr. rewrite cols565_app.
+           replace (map (val565 src) rest) with (map (val565 src) (firstn (2 * n) rest ++ [tl0])) by (now rewrite <- Hrest).
+           rewrite map_app. f_equal.
+           ++ rewrite <- P6. apply cols565_ext. intros j Hj. apply store16_frame; lia.
+           ++ cbn [cols565 map]. f_equal. replace (op + 2 + 2 * Z.of_nat (2 * n)) with op2 by lia.
+              apply load16_store16; [lia | rewrite P4, L1; lia | exact Htl].
+    + (* even remainder *)
+      assert (Hr : length rest = (2 * n)%nat) by lia.
+      repeat split.
+      * lia.
+      * exact P3.
+      * lia.
+      * intros j Hj Ho. rewrite P5 by lia. apply store16_frame; lia.
+      * cbn [cols565 map]. f_equal.
+        -- unfold load16. rewrite !P5 by lia. exact E0.
+        -- rewrite Hr, P6. rewrite <- Hr, firstn_all. reflexivity.
+  - (* aligned *)
+    set (w := length inp) in *.
+    set (n := Z.to_nat (Z.shiftr (Z.of_nat w) 1)).
+    assert (Hn : (2 * n <= w)%nat /\ Z.of_nat w = 2 * Z.of_nat n + (if Z.odd (Z.of_nat w) then 1 else 0)).
+    { unfold n. rewrite Z.shiftr_div_pow2 by lia. change (2 ^ 1) with 2.
+      pose proof (Zdiv2_odd_eqn (Z.of_nat w)) as E. rewrite Z.div2_div in E.
+      rewrite Z2Nat.id by (apply Z.div_pos; lia). split; [|lia].
+      destruct (Z.odd (Z.of_nat w)); lia. }
+    destruct Hn as [Hn1 Hn2]. subst w.
+    pose proof (pairs565_spec src n inp buf op d Hn1 Hok Hop) as P.
+    destruct (pairs565 false src false n inp buf op d) as [[[inp2 buf2] op2] d2].
+    destruct P as (P1 & P2 & P3 & P4 & P5 & P6); [destruct (Z.odd (Z.of_nat (length inp))); lia|].
+    destruct (Z.odd (Z.of_nat (length inp))) eqn:Eo.
+    + assert (Hr : length inp = (2 * n + 1)%nat) by lia.
+      assert (Hin2 : exists tl0, inp2 = [tl0] /\ inp = firstn (2 * n) inp ++ [tl0]).
+      { subst inp2. pose proof (firstn_skipn (2 * n) inp) as FS.
+        destruct (skipn (2 * n) inp) as [|x [|y r]] eqn:Es.
+        - rewrite <- FS, app_nil_r, firstn_length in Hr. lia.
+        - exists x. split; [reflexivity | now rewrite FS].
+        - assert (length inp = length (firstn (2 * n) inp) + S (S (length r)))%nat by (rewrite <- FS at 1; rewrite app_length; reflexivity).
+          rewrite firstn_length in H. lia. }
+      destruct Hin2 as (tl0 & -> & Hrest). cbn [hd].
+      rewrite px565_nodither. fold (val565 src tl0).
+      assert (Htl : 0 <= val565 src tl0 < 65536).
+      { rewrite Hrest in Hok. apply Forall_app in Hok. destruct Hok as [_ Hk]. now inversion Hk. }
+      repeat split.
+      * rewrite length_store16. lia.
+      * exact P3.
+      * intros j Hj Ho. rewrite store16_frame by lia. apply P5; lia.
+      * rewrite Hr, cols565_app.
+        replace (map (val565 src) inp) with (map (val565 src) (firstn (2 * n) inp ++ [tl0])) by (now rewrite <- Hrest).
+        rewrite map_app. f_equal.
+        -- rewrite <- P6. apply cols565_ext. intros j Hj. apply store16_frame; lia.
+        -- cbn [cols565 map]. f_equal. replace (op + 2 * Z.of_nat (2 * n)) with op2 by lia.
+           apply load16_store16; [lia | rewrite P4; lia | exact Htl].
+    + assert (Hr : length inp = (2 * n)%nat) by lia.
+      repeat split.
+      * lia.
+      * exact P3.
+      * intros j Hj Ho. apply P5; lia.
+      * rewrite Hr, P6. rewrite <- Hr. now rewrite firstn_all.
+Qed.
+
+Lemma pairs565_d src : forall n inp buf op d, snd (pairs565 false src false n inp buf op d) = d.
+Proof. induction n; intros; [reflexivity|]. cbn [pairs565]. apply IHn. Qed.
+
+Lemma row565_d src base inp buf op nc d : snd (row565 false src false base inp buf op nc d) = d.
+Proof.
+  unfold row565.
+  destruct (negb (Z.land (base + op) pack_align_mask =? 0)).
+  - pose proof (pairs565_d src (Z.to_nat (Z.shiftr ((nc - 1) mod 2 ^ 32) 1)) (tl inp)
+                  (store16 false buf op (pk false (px565 src false d (hd (0, 0, 0) inp)))) (op + 2) d) as H.
+    destruct (pairs565 false src false _ _ _ _ d) as [[[a b] c] e]. cbn [snd] in *. now subst.
+  - pose proof (pairs565_d src (Z.to_nat (Z.shiftr nc 1)) inp buf op d) as H.
+    destruct (pairs565 false src false _ _ _ _ d) as [[[a b] c] e]. cbn [snd] in *. now subst.
+Qed.
+
+Definition wr565 (src base w : Z) (d : Z) (row : list px3) (buf : list Z) (op : Z) : list Z :=
+  fst (fst (row565 false src false base row buf op w d)).
+
+Lemma rows565_reset_is_write_rows src base w d : forall img buf ptrs nc,
+  rows565 true false src false base w img buf ptrs nc d = write_rows (wr565 src base w d) img buf ptrs.
+Proof.
+  induction img as [|row ri IH]; intros buf [|op rp] nc; try reflexivity.
+  cbn [rows565 write_rows]. unfold wr565.
+  pose proof (row565_d src base row buf op w d) as Hd.
+  destruct (row565 false src false base row buf op w d) as [[b n'] d']. cbn [fst snd] in *. subst d'. apply IH.
+Qed.
+
+Definition ok16b (src : Z) (row : list px3) : bool :=
+  forallb (fun t => (0 <=? val565 src t) && (val565 src t <? 65536)) row.
+Lemma ok16b_ok src row : ok16b src row = true -> ok16 src row.
+Proof.
+  unfold ok16b, ok16. rewrite forallb_forall, Forall_forall. intros H t Ht. specialize (H t Ht).
+  apply andb_prop in H. destruct H as [A B]. apply Z.leb_le in A. apply Z.ltb_lt in B. lia.
+Qed.
+Lemma ok_ok16b src row : ok16 src row -> ok16b src row = true.
+Proof.
+  unfold ok16b, ok16. rewrite forallb_forall, Forall_forall. intros H t Ht. specialize (H t Ht).
+  apply andb_true_intro. split; [apply Z.leb_le | apply Z.ltb_lt]; lia.
+Qed.
+
+(* every row complete, whatever the alignment of the row pointers and however many rows one call converts *)
+Theorem rgb565_rows_all_alignments src base wn : (1 <= wn)%nat -> Z.of_nat wn < 2 ^ 32 ->
+  forall img buf ptrs nc d,
+  length img = length ptrs -> Forall (fun row => length row = wn /\ ok16 src row) img ->
+  in_bounds (2 * Z.of_nat wn) (length buf) ptrs -> separated (2 * Z.of_nat wn) ptrs ->
+  let out := rows565 true false src false base (Z.of_nat wn) img buf ptrs nc d in
+  length out = length buf /\
+  (forall j, 0 <= j -> outside_rows (2 * Z.of_nat wn) ptrs j -> rd out j = rd buf j) /\
+  unpack565 false out ptrs wn = map (map (val565 src)) img.
+Proof.
+  intros Hw1 Hw32 img buf ptrs nc d Hlen Himg Hin Hsep. cbv zeta.
+  rewrite rows565_reset_is_write_rows.
+  set (g := fun (row : list px3) (b : list Z) (op : Z) =>
+              if Nat.eqb (length row) wn && ok16b src row then wr565 src base (Z.of_nat wn) d row b op else b).
+  assert (E : forall img' buf' ptrs', Forall (fun row => length row = wn /\ ok16 src row) img' ->
+            write_rows g img' buf' ptrs' = write_rows (wr565 src base (Z.of_nat wn) d) img' buf' ptrs').
+  { induction img' as [|r ri IH]; intros buf' [|o rp] HF; try reflexivity.
+    inversion HF as [|? ? [Hl Hk] HF']; subst. cbn [write_rows]. unfold g at 2.
+    rewrite Nat.eqb_refl, (ok_ok16b _ _ Hk). cbn [andb]. now apply IH. }
+  set (okrow := fun (row : list px3) (got : list Z) => length row = wn -> ok16 src row -> got = map (val565 src) row).
+  pose proof (write_rows_spec g (fun b op => cols565 false b op wn) (2 * Z.of_nat wn) okrow) as G.
+  assert (HA : forall row b op, 0 <= op -> op + 2 * Z.of_nat wn <= Z.of_nat (length b) ->
+     length (g row b op) = length b /\
+     (forall j, 0 <= j -> (j < op \/ op + 2 * Z.of_nat wn <= j) -> rd (g row b op) j = rd b j) /\
+     okrow row (cols565 false (g row b op) op wn)).
+  { intros row b op Hop Hopd. unfold g, okrow.
+    destruct (Nat.eqb (length row) wn && ok16b src row) eqn:Eg.
+    - apply andb_prop in Eg. destruct Eg as [El Ek]. apply Nat.eqb_eq in El. apply ok16b_ok in Ek.
+      pose proof (row565_spec src base row b op d) as R. cbv zeta in R. rewrite El in R.
+      unfold wr565. destruct (row565 false src false base row b op (Z.of_nat wn) d) as [[b' n'] d'].
+      destruct R as (R1 & R2 & R3 & R4 & R5); try lia; auto. all: try (cbn [fst]; auto).
+    - split; [reflexivity|]. split; [reflexivity|]. intros Hl Hk.
+      rewrite Hl, Nat.eqb_refl, (ok_ok16b _ _ Hk) in Eg. discriminate Eg. }
+  assert (HB : forall b1 b2 op, 0 <= op -> (forall j, op <= j < op + 2 * Z.of_nat wn -> rd b1 j = rd b2 j) ->
+     cols565 false b1 op wn = cols565 false b2 op wn).
+  { intros. now apply cols565_ext. }
+  destruct (G HA HB img buf ptrs Hlen Hin Hsep) as (G1 & G2 & G3).
+  rewrite E in * by assumption.
+  set (out := write_rows (wr565 src base (Z.of_nat wn) d) img buf ptrs) in *. clearbody out.
+  repeat split; auto.
+  unfold unpack565. clear - G3 Himg. induction G3 as [|x y l l' H G3 IH]; [reflexivity|].
+  inversion Himg as [|? ? [Hx Hk] Hl]. cbn [map]. f_equal; [|apply IH; exact Hl]. exact (H Hx Hk).
+Qed.
+
+(* the source fact the theorem above is about: the current jdcol565.c re-initialises num_cols per row *)
+Theorem source_rgb565_resets_num_cols : rgb565_numcols_reset_per_row = true.
+Proof. reflexivity. Qed.
+
+Corollary convert565_all_alignments src base scan wn : (1 <= wn)%nat -> Z.of_nat wn < 2 ^ 32 ->
+  forall img buf ptrs,
+  length img = length ptrs -> Forall (fun row => length row = wn /\ ok16 src row) img ->
+  in_bounds (2 * Z.of_nat wn) (length buf) ptrs -> separated (2 * Z.of_nat wn) ptrs ->
+  let out := convert565 false src false base scan (Z.of_nat wn) img buf ptrs in
+  length out = length buf /\
+  (forall j, 0 <= j -> outside_rows (2 * Z.of_nat wn) ptrs j -> rd out j = rd buf j) /\
+  unpack565 false out ptrs wn = map (map (val565 src)) img.
+Proof.
+  intros Hw1 Hw32 img buf ptrs Hl Hi Hb Hs. cbv zeta. unfold convert565. rewrite source_rgb565_resets_num_cols.
+  now apply rgb565_rows_all_alignments.
+Qed.
+
+(* regression witness: the loop structure before the fix (num_cols carried from row to row) loses the last
+   pixel of the second unaligned row of a call; with the reset it is written *)
+Theorem rgb565_carried_num_cols_defect :
+  let img := [[(255, 0, 8); (9, 10, 11); (4, 255, 8)]; [(9, 10, 11); (7, 0, 255); (9, 10, 11)]] in
+  let buf := repeat 238 18 in
+  rows565 false false 1 false 2 3 img buf [0; 8] 3 0 =
+    [1; 248; 65; 8; 225; 7; 238; 238; 65; 8; 31; 0; 238; 238; 238; 238; 238; 238] /\
+  rows565 true false 1 false 2 3 img buf [0; 8] 3 0 =
+    [1; 248; 65; 8; 225; 7; 238; 238; 65; 8; 31; 0; 65; 8; 238; 238; 238; 238].
+Proof. cbv zeta. split; vm_compute; reflexivity. Qed.
